@@ -1,7 +1,10 @@
 package sim
 
 import (
+	"encoding/json"
 	"fmt"
+	"os"
+	"path/filepath"
 	"strings"
 
 	"pgregory.net/rapid"
@@ -75,6 +78,22 @@ func (m *MonC11) OnEnd(w *World) []Violation {
 	return m.viols
 }
 
+// openJournal starts the shard's crash journal anew for one world: header line
+// (property, profile, config), then one op per line as they are executed.
+func openJournal(env *Env, prop *SimProp, p *Profile, cfg WorldConfig, w *World) func() {
+	if env.OutDir == "" {
+		return func() {}
+	}
+	jf, err := os.Create(filepath.Join(env.OutDir, fmt.Sprintf("journal-%d.jsonl", env.Shard)))
+	if err != nil {
+		return func() {}
+	}
+	hdr, _ := json.Marshal(ReplayFile{Property: prop.ID, Profile: p.Name, Config: cfg})
+	jf.Write(append(hdr, '\n'))
+	w.Journal = jf
+	return func() { jf.Close() }
+}
+
 // FaultVariant builds the script of a variant: the fault ops are inserted before op k.
 func faultVariant(base []Op, k int, fault []Op, post []Op) []Op {
 	v := append([]Op(nil), base[:k]...)
@@ -93,6 +112,7 @@ func RunFaultCase(rt *rapid.T, env *Env, prop *SimProp, faults func(w *World) []
 		rt.Skip("world")
 	}
 	w.Monitors = prop.Monitors()
+	closeJ := openJournal(env, prop, p, cfg, w)
 	w.Settle()
 	g := NewGen(rt, w, p)
 	if p.Prologue > 0 && rapid.IntRange(0, 99).Draw(rt, "prologue") < p.Prologue {
@@ -133,6 +153,7 @@ func RunFaultCase(rt *rapid.T, env *Env, prop *SimProp, faults func(w *World) []
 	}
 	// the base itself (no fault)
 	judge(w, base)
+	closeJ()
 	for _, fault := range fs {
 		for k := 0; k <= len(base); k++ {
 			script := faultVariant(base, k, fault, post)
@@ -142,11 +163,13 @@ func RunFaultCase(rt *rapid.T, env *Env, prop *SimProp, faults func(w *World) []
 				return
 			}
 			vw.Monitors = prop.Monitors()
+			cj := openJournal(env, prop, p, cfg, vw)
 			vw.Settle()
 			for _, op := range script {
 				vw.Exec(op)
 			}
 			judge(vw, vw.SymScript)
+			cj()
 		}
 	}
 	if prop.ID != "C11" {
@@ -169,10 +192,12 @@ func RunFaultCase(rt *rapid.T, env *Env, prop *SimProp, faults func(w *World) []
 				return
 			}
 			vw.Monitors = prop.Monitors()
+			cj := openJournal(env, prop, p, cfg, vw)
 			vw.Settle()
 			for _, op := range script {
 				vw.Exec(op)
 			}
+			cj()
 			env.Stats.Classes["close_races_answer"]++
 			judge(vw, vw.SymScript)
 		}
@@ -335,7 +360,15 @@ func c20Post() []Op {
 
 // C20Faults: Stop and loss of the messaging connection.
 func C20Faults(w *World) [][]Op {
-	return [][]Op{{{K: "stop"}}, {{K: "lose"}}}
+	fs := [][]Op{{{K: "stop"}}, {{K: "lose"}}}
+	// Stop while the messaging client still delivers an event for a cached resource
+	for _, d := range w.Cfg.Resources {
+		if d.QueryMap == nil && !d.PerCID && !d.Missing {
+			fs = append(fs, []Op{{K: "stop", S: "event." + d.Name + ".custom", P: `{"late":true}`}})
+			break
+		}
+	}
+	return fs
 }
 
 func init() {
